@@ -9,15 +9,17 @@ import (
 
 // Ctx is what a rule sees.
 type Ctx struct {
-	L     *Loaded
-	m     *Model
-	e     *Engine
-	r     *Report
-	tier  string
-	cg    map[*FuncUnit]map[*FuncUnit]bool
-	done  map[string]bool
-	pf    map[string]prefixFreeInfo
-	reach map[string]map[*FuncUnit]bool // property → units reachable from its entry points
+	sites         map[*FuncUnit][]callSite
+	pedigreeDepth int
+	L             *Loaded
+	m             *Model
+	e             *Engine
+	r             *Report
+	tier          string
+	cg            map[*FuncUnit]map[*FuncUnit]bool
+	done          map[string]bool
+	pf            map[string]prefixFreeInfo
+	reach         map[string]map[*FuncUnit]bool // property → units reachable from its entry points
 }
 
 // callGraph: static callees, method values, interface calls on Tree, nested literals.
